@@ -913,3 +913,70 @@ def r04_17(ctx):
         ok = "_offsets" in expanded
     ctx.check(ok, "SplineMethod.add_constraints_noninf groups constraints by their offsets too", detail="a plain constraint lumped with one that uses next()/prev() loses the instances outside the other's offset window (e.g. the final node)",
               expected="key = (refine, group_refine, include_first, include_last, <offsets used by c>)", found=found, fi=f, sample={"key": found})
+
+
+@rule("R04.18", min_instances=4, desc="SplineMethod leaves out the first/last point of a path constraint in one place only: the lump's include flags are forwarded to grid_control (which knows the offset window, R07.11) and the columns are not trimmed a second time")
+def r04_18(ctx):
+    """D37: trimming the columns after grid_control had cut the window of an offset expression dropped two instances
+    (include_first=False together with prev(), include_last=False with next())."""
+    from .c07 import r07_11
+    P = ctx.prog
+    f = P.own_method("SplineMethod", "add_constraints_noninf")
+    sc = ctx.scope(f)
+    calls = [c for c in walk_no_nested(f.node) if is_call_to(c, "grid_control", "self")]
+    if len(calls) != 1:
+        raise AnalysisError("SplineMethod.add_constraints_noninf: expected one call of self.grid_control, found %d" % len(calls))
+    call = calls[0]
+    # the loop variable tuple of the lump loop: (refine, group_refine, include_first, include_last, offsets)
+    for flag in ("include_first", "include_last"):
+        kw = {k.arg: k.value for k in call.keywords}
+        v = kw.get(flag)
+        ok = v is not None and _lump_component(sc, v, call) == flag
+        ctx.check(ok, "SplineMethod.add_constraints_noninf forwards the lump's %s to grid_control" % flag, detail="the point is left out (if at all) without knowledge of the offset window",
+                  expected="self.grid_control(.., %s=<%s of the lump key>)" % (flag, flag), found=ast.unparse(call)[:160], fi=f, node=call, sample={"flag": flag, "call": ast.unparse(call)})
+    # the values returned by grid_control are not cut again along the columns
+    tgt = None
+    for st in walk_no_nested(f.node):
+        if isinstance(st, ast.Assign) and st.value is call and isinstance(st.targets[0], ast.Tuple) and len(st.targets[0].elts) == 2 and isinstance(st.targets[0].elts[1], ast.Name):
+            tgt = st.targets[0].elts[1].id
+    if tgt is None:
+        raise AnalysisError("SplineMethod.add_constraints_noninf: expected `_, <values> = self.grid_control(..)`")
+    recuts = []
+    for x in walk_no_nested(f.node):
+        if isinstance(x, ast.Subscript) and isinstance(x.value, ast.Name) and x.value.id == tgt and any(isinstance(y, ast.Name) and y.id in ("include_first", "include_last") for y in ast.walk(x.slice)):
+            recuts.append(x)
+        if isinstance(x, ast.Assign) and isinstance(x.targets[0], ast.Name) and x.targets[0].id == tgt and isinstance(x.value, ast.Subscript) and isinstance(x.value.value, ast.Name) and x.value.value.id == tgt \
+                and any(g for g, p in sc.guard_conjuncts(x) if any(isinstance(y, ast.Name) and y.id in ("include_first", "include_last") for y in ast.walk(g))):
+            recuts.append(x)
+    ctx.check(not recuts, "SplineMethod.add_constraints_noninf does not trim the evaluated instances a second time", detail="with next()/prev() the offset window already lacks that point: a second cut drops one instance too many",
+              expected="no include_first/include_last-dependent slicing of `%s` after grid_control" % tgt, found="; ".join(ast.unparse(r)[:80] for r in recuts) or "none", fi=f, node=recuts[0] if recuts else call)
+    r07_11(ctx)
+
+
+def _lump_component(sc, v, at):
+    """Name of the lump-key component an expression denotes inside the lump loop: the loop unpacks the key tuple
+    (refine, group_refine, include_first, include_last, offsets) whose components were built from args[<name>]."""
+    if isinstance(v, ast.Name):
+        for d in sc.defs.get(v.id, []):
+            if d.kind in ("for", "assign", "unpack") or True:
+                st = d.stmt
+                tup = None
+                if isinstance(st, ast.Assign) and isinstance(st.targets[0], ast.Tuple):
+                    tup = st.targets[0]
+                elif isinstance(st, ast.For) and isinstance(st.target, ast.Tuple):
+                    tup = st.target
+                if tup is None:
+                    continue
+                names = [ast.unparse(e) for e in tup.elts]
+                if v.id not in names:
+                    continue
+                pos = names.index(v.id)
+                # the key tuple
+                for kd in sc.defs.get("key", []):
+                    if kd.kind == "assign" and isinstance(kd.value, ast.Tuple) and len(kd.value.elts) == len(names):
+                        e = kd.value.elts[pos]
+                        if isinstance(e, ast.Subscript) and isinstance(e.slice, ast.Constant):
+                            return e.slice.value
+    if isinstance(v, ast.Subscript) and isinstance(v.slice, ast.Constant) and isinstance(v.slice.value, str):
+        return v.slice.value
+    return None
